@@ -229,6 +229,8 @@ class Runtime:
         self._pre = None
         if pre is not None and pre[1] == nid:
             run, kw, k = pre[0], pre[2], pre[3]
+            # announced at submission; the value is built from what the body really received
+            kw = self.kwterm(kwargs)
         else:
             run, kw, k = self.begin(nid, kwargs)
             if not self.virtual and self.jitter:
@@ -251,6 +253,8 @@ class Runtime:
         if nid is None:
             return None
         kwargs = dict(getattr(func, 'keywords', {}) or {})
+        # build_node's wrapper adds the constant dependencies of a generic node inside the worker
+        kwargs.update(getattr(type(inst), 'verif_consts', None) or {})
         run, kw, k = self.begin(nid, kwargs)
         return (run, nid, kw, k)
 
